@@ -76,3 +76,22 @@ fn c10_flex_one_child() {
 
 // (two or more children, flex factors: CBMC's memory grows past 12 GB within two minutes - the SmallVec layout arena
 //  with several nodes plus symbolic sizes - so those configurations are not explored)
+
+//# kind=bounded tier=quick props=C10 bound="flex with one flex child (factor 1.0) that is a probe child (any size within the constraint it is given); every direction, justification, alignment and constraint with min <= max" fns=flex_layout | laying out a one-flex-child flex terminates without panicking - in particular when the share computed in f64 rounds up past the remaining space under a maximum near usize::MAX - and reports a size within the constraint
+#[kani::proof]
+#[kani::unwind(5)]
+fn c10_flex_one_flex_child() {
+    let ctx = ViewContext::dummy();
+    let (min, max, ct) = any_ct();
+    let mut store = ViewLayoutStore::new();
+    let mut layout = ViewMutLayout::new(&mut store, Layout::default());
+    let children: [FlexChild<Probe>; 1] = [FlexChild::new(any_probe()).align(any_child_align()).flex(1.0)];
+    let r = flex_layout(any_axis(), any_justify(), children, &ctx, ct, layout.view_mut());
+    assert!(r.is_ok());
+    let s = layout.size();
+    assert!(s.height >= min.height && s.height <= max.height && s.width >= min.width && s.width <= max.width);
+    kani::cover!(max.width > 0);
+    std::mem::forget(r);
+    std::mem::forget(layout);
+    std::mem::forget(store);
+}
